@@ -668,15 +668,121 @@ def s0R : Rel := ⟨"s0", Hop.frameCols⟩
 def s1R : Rel := ⟨"s1", cols5⟩
 def s2R : Rel := ⟨"s2", cols7⟩
 
-theorem bFrame0 (km : KindMap) (ka kr kb : Option (List Nat)) (flip : Bool) : bQuery Γ0 ⟨[], []⟩ (Ch.frame0 ka kr kb flip) = some Hop.frameCols :=
-  Hop.bFrame2 km flip true true true ka kr kb [] [] [] none none none rfl rfl rfl
+theorem bFrame0 (km : KindMap) (ka kr kb : Option (List Nat)) (psa psr psb : List S1.Pred) (pa pr pb : Option Expr)
+    (hpa : predsE km "n0" false psa = some pa) (hpr : predsE km "e0" true psr = some pr) (hpb : predsE km "n1" false psb = some pb) (flip : Bool) :
+    bQuery Γ0 ⟨[], []⟩ (Ch.frame0 ka kr kb pa pr pb flip) = some Hop.frameCols :=
+  Hop.bFrame2 km flip true true true ka kr kb psa psr psb pa pr pb hpa hpr hpb
 
-/-- frame s1 binds under the scope that knows s0 (the kind-id lists are literals: their content is never inspected) -/
-theorem bStep1 (kr kn : Option (List Nat)) : bQuery Γ0 ⟨[s0R], []⟩ (Ch.stepFrame 1 kr kn) = some cols5 := by
-  cases kr <;> cases kn <;> rfl
+/-- the relation a relationship table shows under alias `al` -/
+def eRelA (al : String) : Rel := ⟨al, [⟨"id", "int8"⟩, ⟨"graph_id", "int4"⟩, ⟨"start_id", "int8"⟩, ⟨"end_id", "int8"⟩, ⟨"kind_id", "int2"⟩, ⟨"properties", "jsonb"⟩]⟩
 
-theorem bStep2 (kr kn : Option (List Nat)) : bQuery Γ0 ⟨[s1R, s0R], []⟩ (Ch.stepFrame 2 kr kn) = some cols7 := by
-  cases kr <;> cases kn <;> rfl
+/-- FROM of a step frame: `<sp> join edge <ek> on onE join node <nk> on onN` under the frames `cs` -/
+theorem bFromStep (cs : List Rel) (sp : String) (spR : Rel) (ek nk : String) (onE onN : Expr)
+    (hS : bFromItem Γ0 ⟨cs, []⟩ [] (.table [sp] none) = some spR)
+    (hE : ∀ vis, bFromItem Γ0 ⟨cs, []⟩ vis (.table ["edge"] (some ek)) = some (eRelA ek))
+    (hN : ∀ vis, bFromItem Γ0 ⟨cs, []⟩ vis (.table ["node"] (some nk)) = some (Hop.nRel nk))
+    (hA0 : bAddRte spR [] [] = some [spR]) (hA1 : bAddRte (eRelA ek) [] [spR] = some [spR, eRelA ek])
+    (hA2 : bAddRte (Hop.nRel nk) [] [spR, eRelA ek] = some [spR, eRelA ek, Hop.nRel nk])
+    (h1 : Hop.BindsOpt ⟨cs, [[spR, eRelA ek]]⟩ (some onE)) (h2 : Hop.BindsOpt ⟨cs, [[spR, eRelA ek, Hop.nRel nk]]⟩ (some onN)) :
+    bFromClauses Γ0 ⟨cs, []⟩ [] [.mk (.table [sp] none)
+      [.mk .inner (.table ["edge"] (some ek)) (some onE), .mk .inner (.table ["node"] (some nk)) (some onN)]] =
+      some [spR, eRelA ek, Hop.nRel nk] := by
+  obtain ⟨t1, h1⟩ := h1
+  obtain ⟨t2, h2⟩ := h2
+  rw [bFromClauses, hS]
+  simp only [Option.bind_eq_bind, Option.bind_some, hA0]
+  rw [bJoins, hE]
+  simp only [Option.bind_eq_bind, Option.bind_some, List.nil_append, hA1, Scope.push, h1]
+  rw [bJoins, hN]
+  simp only [Option.bind_eq_bind, Option.bind_some, hA2, Scope.push, h2, bJoins, List.nil_append, bFromClauses]
+
+theorem bFromItem_tbl (cs : List Rel) (vis : List Rel) (t al : String) (r : Rel) (h : bRelation Γ0.cat cs [t] = some r) :
+    bFromItem Γ0 ⟨cs, []⟩ vis (.table [t] (some al)) = some ⟨al, r.cols⟩ := by
+  rw [bFromItem]
+  simp only [h, Option.bind_eq_bind, Option.bind_some, Option.getD_some, Option.pure_def]
+
+/-- `[constraint and] n.id = e.end_id` binds where the constraint does and both aliases show their id columns -/
+theorem bJoinOnE (sc : Scope) (al ek : String) (c : Option Expr) (hc : Hop.BindsOpt sc c) (hid : Hop.Binds sc (.compound [al, "id"]))
+    (hep : Hop.Binds sc (.compound [ek, "end_id"])) : Hop.BindsOpt sc (some (Ch.joinOnE al ek c)) := by
+  unfold Ch.joinOnE
+  cases c with
+  | none => exact Hop.bindsOpt_some sc _ (Hop.bx_bin sc _ _ _ hid hep)
+  | some ce => exact Hop.bindsOpt_some sc _ (Hop.bx_bin sc _ _ _ (Hop.binds_of_opt sc ce hc) (Hop.bx_bin sc _ _ _ hid hep))
+
+/-- frame s1 binds under the scope that knows s0, for every kind constraint and every list of WHERE conjuncts over e1 / n2 -/
+theorem bStep1 (km : KindMap) (kr kn : Option (List Nat)) (psr psn : List S1.Pred) (pr pn : Option Expr)
+    (hpr : predsE km "e1" true psr = some pr) (hpn : predsE km "n2" false psn = some pn) :
+    bQuery Γ0 ⟨[s0R], []⟩ (Ch.stepFrame 1 kr kn pr pn) = some cols5 := by
+  have hq : Ch.stepFrame 1 kr kn pr pn = Sql.Query.simple (.select false
+      [Ch.carry "s0" "e0", Ch.edgeCompositeOf "e1", Ch.carry "s0" "n0", Ch.carry "s0" "n1", nodeCompositeOf "n2"]
+      [.mk (.table ["s0"] none)
+        [.mk .inner (.table ["edge"] (some "e1")) (some (.bin "=" (.rowCol (col "s0" "n1") "id") (col "e1" "start_id"))),
+         .mk .inner (.table ["node"] (some "n2")) (some (Ch.joinOnE "n2" "e1" (both pn (nodeKindsE "n2" kn))))]]
+      (both (both pr (kr.map (fun ids => Expr.bin "=" (col "e1" "kind_id") (.anyOf (kindsLit ids))))) (some (Ch.guard "s0" 1 0))) [] none) := rfl
+  have HN : Hop.ColsAt ⟨[s0R], [[s0R, eRelA "e1", Hop.nRel "n2"]]⟩ "n2" false :=
+    ⟨⟨"int8", by decide +kernel⟩, ⟨"jsonb", by decide +kernel⟩, ⟨"int2[]", by decide +kernel⟩⟩
+  have HE : Hop.ColsAt ⟨[s0R], [[s0R, eRelA "e1", Hop.nRel "n2"]]⟩ "e1" true :=
+    ⟨⟨"int8", by decide +kernel⟩, ⟨"jsonb", by decide +kernel⟩, ⟨"int2", by decide +kernel⟩⟩
+  have hOnN := bJoinOnE ⟨[s0R], [[s0R, eRelA "e1", Hop.nRel "n2"]]⟩ "n2" "e1" _
+    (Hop.bBoth _ _ _ (Hop.bPredsE km _ _ _ HN psn pn hpn) (Hop.bNodeKindsE _ _ HN kn)) HN.id ⟨"int8", by decide +kernel⟩
+  have hOnE : Hop.BindsOpt ⟨[s0R], [[s0R, eRelA "e1"]]⟩ (some (.bin "=" (.rowCol (col "s0" "n1") "id") (col "e1" "start_id"))) :=
+    ⟨"", by decide +kernel⟩
+  have hfrom := bFromStep [s0R] "s0" s0R "e1" "n2" _ _ (by decide +kernel)
+    (fun vis => bFromItem_tbl [s0R] vis "edge" "e1" (eRelA "edge") (by decide +kernel))
+    (fun vis => bFromItem_tbl [s0R] vis "node" "n2" (Hop.nRel "node") (by decide +kernel))
+    (by decide +kernel) (by decide +kernel) (by decide +kernel) hOnE hOnN
+  have hkinds : Hop.BindsOpt ⟨[s0R], [[s0R, eRelA "e1", Hop.nRel "n2"]]⟩ (kr.map (fun ids => Expr.bin "=" (col "e1" "kind_id") (.anyOf (kindsLit ids)))) := by
+    cases kr with
+    | none => exact Hop.bindsOpt_none _
+    | some ids => exact Hop.bindsOpt_some _ _ (Hop.bx_bin _ _ _ _ ⟨"int2", by decide +kernel⟩ (Hop.bx_anyOf _ _ (Hop.bx_lit _ _ _)))
+  obtain ⟨tw, hw⟩ := Hop.bBoth _ _ _ (Hop.bBoth _ _ _ (Hop.bPredsE km _ _ _ HE psr pr hpr) hkinds)
+    (⟨"", by decide +kernel⟩ : Hop.BindsOpt ⟨[s0R], [[s0R, eRelA "e1", Hop.nRel "n2"]]⟩ (some (Ch.guard "s0" 1 0)))
+  have hproj : bProj Γ0 ⟨[s0R], [[s0R, eRelA "e1", Hop.nRel "n2"]]⟩ [s0R, eRelA "e1", Hop.nRel "n2"]
+      [Ch.carry "s0" "e0", Ch.edgeCompositeOf "e1", Ch.carry "s0" "n0", Ch.carry "s0" "n1", nodeCompositeOf "n2"] = some cols5 := by decide +kernel
+  rw [hq]
+  unfold Sql.Query.simple
+  rw [bQuery, bCtes]
+  simp only [Scope.withCtes, Option.bind_eq_bind, Option.bind_some]
+  rw [bSetExpr]
+  simp only [hfrom, Scope.push, Option.bind_eq_bind, Option.bind_some, hw, hproj, bGroupBy, bOpt, bOrderBy, Option.pure_def]
+
+theorem bStep2 (km : KindMap) (kr kn : Option (List Nat)) (psr psn : List S1.Pred) (pr pn : Option Expr)
+    (hpr : predsE km "e2" true psr = some pr) (hpn : predsE km "n3" false psn = some pn) :
+    bQuery Γ0 ⟨[s1R, s0R], []⟩ (Ch.stepFrame 2 kr kn pr pn) = some cols7 := by
+  have hq : Ch.stepFrame 2 kr kn pr pn = Sql.Query.simple (.select false
+      [Ch.carry "s1" "e0", Ch.carry "s1" "e1", Ch.edgeCompositeOf "e2", Ch.carry "s1" "n0", Ch.carry "s1" "n1", Ch.carry "s1" "n2", nodeCompositeOf "n3"]
+      [.mk (.table ["s1"] none)
+        [.mk .inner (.table ["edge"] (some "e2")) (some (.bin "=" (.rowCol (col "s1" "n2") "id") (col "e2" "start_id"))),
+         .mk .inner (.table ["node"] (some "n3")) (some (Ch.joinOnE "n3" "e2" (both pn (nodeKindsE "n3" kn))))]]
+      (both (both pr (kr.map (fun ids => Expr.bin "=" (col "e2" "kind_id") (.anyOf (kindsLit ids)))))
+        (some (.bin "and" (Ch.guard "s1" 2 0) (Ch.guard "s1" 2 1)))) [] none) := rfl
+  have HN : Hop.ColsAt ⟨[s1R, s0R], [[s1R, eRelA "e2", Hop.nRel "n3"]]⟩ "n3" false :=
+    ⟨⟨"int8", by decide +kernel⟩, ⟨"jsonb", by decide +kernel⟩, ⟨"int2[]", by decide +kernel⟩⟩
+  have HE : Hop.ColsAt ⟨[s1R, s0R], [[s1R, eRelA "e2", Hop.nRel "n3"]]⟩ "e2" true :=
+    ⟨⟨"int8", by decide +kernel⟩, ⟨"jsonb", by decide +kernel⟩, ⟨"int2", by decide +kernel⟩⟩
+  have hOnN := bJoinOnE ⟨[s1R, s0R], [[s1R, eRelA "e2", Hop.nRel "n3"]]⟩ "n3" "e2" _
+    (Hop.bBoth _ _ _ (Hop.bPredsE km _ _ _ HN psn pn hpn) (Hop.bNodeKindsE _ _ HN kn)) HN.id ⟨"int8", by decide +kernel⟩
+  have hOnE : Hop.BindsOpt ⟨[s1R, s0R], [[s1R, eRelA "e2"]]⟩ (some (.bin "=" (.rowCol (col "s1" "n2") "id") (col "e2" "start_id"))) :=
+    ⟨"", by decide +kernel⟩
+  have hfrom := bFromStep [s1R, s0R] "s1" s1R "e2" "n3" _ _ (by decide +kernel)
+    (fun vis => bFromItem_tbl [s1R, s0R] vis "edge" "e2" (eRelA "edge") (by decide +kernel))
+    (fun vis => bFromItem_tbl [s1R, s0R] vis "node" "n3" (Hop.nRel "node") (by decide +kernel))
+    (by decide +kernel) (by decide +kernel) (by decide +kernel) hOnE hOnN
+  have hkinds : Hop.BindsOpt ⟨[s1R, s0R], [[s1R, eRelA "e2", Hop.nRel "n3"]]⟩ (kr.map (fun ids => Expr.bin "=" (col "e2" "kind_id") (.anyOf (kindsLit ids)))) := by
+    cases kr with
+    | none => exact Hop.bindsOpt_none _
+    | some ids => exact Hop.bindsOpt_some _ _ (Hop.bx_bin _ _ _ _ ⟨"int2", by decide +kernel⟩ (Hop.bx_anyOf _ _ (Hop.bx_lit _ _ _)))
+  obtain ⟨tw, hw⟩ := Hop.bBoth _ _ _ (Hop.bBoth _ _ _ (Hop.bPredsE km _ _ _ HE psr pr hpr) hkinds)
+    (⟨"", by decide +kernel⟩ : Hop.BindsOpt ⟨[s1R, s0R], [[s1R, eRelA "e2", Hop.nRel "n3"]]⟩ (some (.bin "and" (Ch.guard "s1" 2 0) (Ch.guard "s1" 2 1))))
+  have hproj : bProj Γ0 ⟨[s1R, s0R], [[s1R, eRelA "e2", Hop.nRel "n3"]]⟩ [s1R, eRelA "e2", Hop.nRel "n3"]
+      [Ch.carry "s1" "e0", Ch.carry "s1" "e1", Ch.edgeCompositeOf "e2", Ch.carry "s1" "n0", Ch.carry "s1" "n1", Ch.carry "s1" "n2", nodeCompositeOf "n3"] =
+      some cols7 := by decide +kernel
+  rw [hq]
+  unfold Sql.Query.simple
+  rw [bQuery, bCtes]
+  simp only [Scope.withCtes, Option.bind_eq_bind, Option.bind_some]
+  rw [bSetExpr]
+  simp only [hfrom, Scope.push, Option.bind_eq_bind, Option.bind_some, hw, hproj, bGroupBy, bOpt, bOrderBy, Option.pure_def]
 
 def refOK (k : Nat) : Ch.Ref → Bool
   | .node i => decide (i < k + 1)
@@ -743,6 +849,16 @@ theorem refs_ok (q : Ch.Query) (x : Ch.Ref) (h : q.refs.contains x = true) : ref
     · cases hh; simp [refOK, hj]
 
 /-- THE FRAGMENT THEOREM, stage S2c: every chain statement passes the verified binder under the schema catalogue with no parameters -/
+theorem stepPreds_some (km : KindMap) (q : Ch.Query) (i : Nat) (pr pn : Option Expr) (h : Ch.stepPreds km q i = some (pr, pn)) :
+    predsE km (Ch.eN i) true (q.preds (.rel i)) = some pr ∧ predsE km (Ch.nN (i + 1)) false (q.preds (.node (i + 1))) = some pn := by
+  unfold Ch.stepPreds at h
+  cases h1 : predsE km (Ch.eN i) true (q.preds (.rel i)) with
+  | none => simp [h1, bind, Option.bind] at h
+  | some a =>
+    cases h2 : predsE km (Ch.nN (i + 1)) false (q.preds (.node (i + 1))) with
+    | none => simp [h1, h2, bind, Option.bind] at h
+    | some b => simp [h1, h2, bind, Option.bind] at h; exact ⟨by rw [h.1], by rw [h.2]⟩
+
 theorem tr_wellScopedCh (km : KindMap) (q : Ch.Query) (flip : Bool) (st : Stmt) (h : q.trWith km flip = some st) : wellScoped Γ0 st = true := by
   unfold Ch.Query.trWith at h
   cases hwf : q.wf with
@@ -752,7 +868,7 @@ theorem tr_wellScopedCh (km : KindMap) (q : Ch.Query) (flip : Bool) (st : Stmt) 
   have hwf' := hwf
   unfold Ch.Query.wf at hwf'
   simp only [Bool.and_eq_true, decide_eq_true_eq, List.all_eq_true, Bool.or_eq_true, beq_iff_eq] at hwf'
-  obtain ⟨⟨⟨hlen, _⟩, hitems⟩, _⟩ := hwf'
+  obtain ⟨⟨⟨⟨hlen, _⟩, hitems⟩, _⟩, _⟩ := hwf'
   cases hh : q.hops with
   | nil => rw [hh] at hlen; simp at hlen
   | cons h0 hs =>
@@ -765,18 +881,31 @@ theorem tr_wellScopedCh (km : KindMap) (q : Ch.Query) (flip : Bool) (st : Stmt) 
   | none => simp [hka, hk0, bind, Option.bind] at h
   | some k0 =>
   obtain ⟨kr, kb⟩ := k0
+  cases hpa : predsE km "n0" false (q.preds (.node 0)) with
+  | none => simp [hka, hk0, hpa, bind, Option.bind] at h
+  | some pa =>
+  cases hsp0 : Ch.stepPreds km q 0 with
+  | none => simp [hka, hk0, hpa, hsp0, bind, Option.bind] at h
+  | some sp0 =>
+  obtain ⟨pr0, pb0⟩ := sp0
+  obtain ⟨hpr0, hpb0⟩ := stepPreds_some km q 0 pr0 pb0 hsp0
   cases hs with
   | nil => simp at hlen
   | cons h1 hs' =>
   cases hk1 : Ch.hopKinds km h1 with
-  | none => simp [hka, hk0, hk1, Ch.stepCtes, bind, Option.bind] at h
+  | none => simp [hka, hk0, hpa, hsp0, hk1, Ch.stepCtes, bind, Option.bind] at h
   | some k1 =>
   obtain ⟨kr1, kn1⟩ := k1
-  have hf0 := bFrame0 km ka kr kb flip
-  have hf1 := bStep1 kr1 kn1
+  cases hsp1 : Ch.stepPreds km q 1 with
+  | none => simp [hka, hk0, hpa, hsp0, hk1, hsp1, Ch.stepCtes, bind, Option.bind] at h
+  | some sp1 =>
+  obtain ⟨pr1, pn1⟩ := sp1
+  obtain ⟨hpr1, hpn1⟩ := stepPreds_some km q 1 pr1 pn1 hsp1
+  have hf0 := bFrame0 km ka kr kb (q.preds (.node 0)) (q.preds (.rel 0)) (q.preds (.node 1)) pa pr0 pb0 hpa hpr0 hpb0 flip
+  have hf1 := bStep1 km kr1 kn1 (q.preds (.rel 1)) (q.preds (.node 2)) pr1 pn1 hpr1 hpn1
   cases hs' with
   | nil =>
-    simp [hka, hk0, hk1, Ch.stepCtes, bind, Option.bind, Ch.sN] at h
+    simp [hka, hk0, hpa, hsp0, hk1, hsp1, Ch.stepCtes, bind, Option.bind, Ch.sN] at h
     subst h
     have hb : ∀ it ∈ q.items, ∃ ty, bExpr Γ0 ⟨[s1R, s0R], [[s1R]]⟩ (it.tr q "s1") = some ty := fun it hit =>
       bItem_s1 q it (by have := refs_ok q it.ref (by simpa using hitems it hit); rw [hh] at this; exact this)
@@ -800,11 +929,16 @@ theorem tr_wellScopedCh (km : KindMap) (q : Ch.Query) (flip : Bool) (st : Stmt) 
     | cons h3 _ => simp at hlen
     | nil =>
     cases hk2 : Ch.hopKinds km h2 with
-    | none => simp [hka, hk0, hk1, hk2, Ch.stepCtes, bind, Option.bind] at h
+    | none => simp [hka, hk0, hpa, hsp0, hk1, hsp1, hk2, Ch.stepCtes, bind, Option.bind] at h
     | some k2 =>
     obtain ⟨kr2, kn2⟩ := k2
-    have hf2 := bStep2 kr2 kn2
-    simp [hka, hk0, hk1, hk2, Ch.stepCtes, bind, Option.bind, Ch.sN] at h
+    cases hsp2 : Ch.stepPreds km q 2 with
+    | none => simp [hka, hk0, hpa, hsp0, hk1, hsp1, hk2, hsp2, Ch.stepCtes, bind, Option.bind] at h
+    | some sp2 =>
+    obtain ⟨pr2, pn2⟩ := sp2
+    obtain ⟨hpr2, hpn2⟩ := stepPreds_some km q 2 pr2 pn2 hsp2
+    have hf2 := bStep2 km kr2 kn2 (q.preds (.rel 2)) (q.preds (.node 3)) pr2 pn2 hpr2 hpn2
+    simp [hka, hk0, hpa, hsp0, hk1, hsp1, hk2, hsp2, Ch.stepCtes, bind, Option.bind, Ch.sN] at h
     subst h
     have hb : ∀ it ∈ q.items, ∃ ty, bExpr Γ0 ⟨[s2R, s1R, s0R], [[s2R]]⟩ (it.tr q "s2") = some ty := fun it hit =>
       bItem_s2 q it (by have := refs_ok q it.ref (by simpa using hitems it hit); rw [hh] at this; exact this)
